@@ -4,7 +4,7 @@ import json
 CHECKS = {
     "C17": dict(
         text="Lean 4 theorems over the executable model of uniform_quantize_tensor.py: scale positive/finite-or-rejected, symmetric zero point 0, zero exactly representable, codes in (narrow) range, monotonicity under IEEE rounding (all for every rational input, float32/float64), and the exact half-step / identity / coverage laws in ideal arithmetic; the model is tied bit-exactly to the code by the arith correspondence (incl. all 4/8-bit codes).",
-        note="both ideal-arithmetic (QProps/C17) and IEEE-rounded (QProps/C17b: zp_in_range, q_dq_rounded, dq_q_rounded with explicit float32 slack) versions are proved; finding D14 (scale=inf when max-min overflows float32) is recorded, keyed by its witness class; trusted base in evidence.trusted_base",
+        note="both ideal-arithmetic (QProps/C17) and IEEE-rounded (QProps/C17b: zp_in_range, q_dq_rounded, dq_q_rounded with explicit float32 slack) versions are proved; C17c: 64-bit codes (bias of 16-bit-activation ops) stay in range and saturation keeps the sign (q_in_range_64, saturates_high_64) after repair D34 (pinned behaviour d34_pinned_wraps); finding D14 (scale=inf when max-min overflows float32) is recorded, call-site keyed",
         design="§6 C17",
     ),
 }
@@ -44,7 +44,7 @@ CHECKS.update({
     ),
     "C04": dict(
         text="Lean 4 theorems: bias parameters (scale = input scale x weight scale per channel, zero point 0, 32/64 bit), fixed output ranges of softmax/logistic/tanh, parameters handed to another runtime tensor are carried unchanged (same-as-input / same-as-output rules), plus C17's scalar laws under IEEE rounding (positive finite scale, zero point in range, symmetric => 0). Materialisation compared bit-exactly with the code; independent oracle re-derives the reference parameters from statistics the check recomputes with its own interpreter run.",
-        note="the statement 'params(t) = reference(stats(root t), cfg)' for every tensor is checked by the oracle, not proved as one theorem",
+        note="C04b (QProps/C04b): proved that what materialisation requests for a tensor IS the reference formula applied to that tensor's statistics: runtime tensors of static-range ops from the recorded min/max (act_params_reference), constants from their TRUE per-tensor/per-channel min/max under the granularity configured now, whatever the statistics dictionary holds (weight_params_reference, weight_stats_true_minmax, weight_request_ignores_stats; false before repair D36), all well formed by the C17 laws (tensorQuantParams_wellformed), per-channel only on constants of weight ops on the kernel's dimension, same-as-input / concatenation / fixed-range / bias rules with the operator dispatch checked against the regenerated registry; the lifting of these per-operator statements through the whole generate loop is covered by execution",
         design="§6 C04",
     ),
     "C05": dict(
@@ -59,12 +59,12 @@ CHECKS.update({
     ),
     "C09": dict(
         text="Lean 4 theorems on the calibration model: resumption (calibrate on D1 then continue on D2 from the result = one pass over D1++D2, for every model/recipe/data), first sample initialises, statistics complete after >=1 sample. Calibrator compared bit-exactly (float32 EMA arithmetic included) with the model on contents captured by the harness's own interpreter; all ways of splitting 1..4 samples into sessions; independent EMA / true-min-max oracle; previous result unmodified.",
-        note="the interpreter producing tensor contents is external (input of the model)",
+        note="C09b: EXACTNESS is proved: the entry recorded for a runtime tensor is the left fold of the 0.95 moving average over its per-sample min/max in dataset order, each sample counted once (runtime_stats_exact / _unique under the model-wide unique names the library requires; necessity witness Collision.not_exact replayed on the real code), constants carry their true min/max (const_stats_exact/_minmax), resumed = single pass (resumed_stats_exact), order matters (order_matters); the interpreter producing tensor contents is external (input of the model)",
         design="§6 C09",
     ),
     "C10": dict(
         text="Lean 4 theorem stats_complete: after calibrate() on >=1 sample every non-constant operand/result of every op selected for min/max quantization has recorded min/max (so quantize() cannot find them missing); both stages use one scope function in the model and both real scope builders are compared per op; calibrate-then-quantize executed over regex-heavy recipes incl. multi-signature models.",
-        note="equality of the two Python scope builders is established by execution on every op of every generated model, not by proof",
+        note="C10b: with a recorded entry the materialisation wrapper takes neither missing-statistics raise site (wrapper_uses_recorded_stats) and after calibrate() every selected operator's runtime operand is looked up successfully (calibrated_lookup_never_missing); equality of the two Python scope builders is established by execution on every op of every generated model, not by proof",
         design="§6 C10",
     ),
     "C14": dict(
@@ -74,12 +74,12 @@ CHECKS.update({
     ),
     "C15": dict(
         text="Lean 4 theorems on the buffer-sharing decision: compatible requests read a shared constant through the same source class and, when quantizing, with ==-equal parameters; writing the same packed data twice is idempotent. Executed on generated tied-constant models (within/across subgraphs, one tensor with 2..3 consumers) x equal/different/no quantization: every buffer decoded against every referent, rejection allowed.",
-        note="soundness of the whole sharing check is proved (QProps/C15b: if the check passes, all operand occurrences of a constant buffer carry pairwise compatible requests, a single-occurrence constant has mutually compatible consumers incl. the graph output, and a constant no operator reads never shares a rewritten buffer); that the graph stage then writes the buffer once per parameter object is shared_write_idempotent; the end-to-end statement over the output bytes is checked per case by the oracle",
+        note="END TO END (QProps/C15c, quantize_shared_consistent): for every model in normal form, recipe state, regex semantics and statistics, quantizePure raises or returns a model in which every original constant buffer is untouched with all referents untouched, or holds the packed data of ONE parameter and every tensor referencing it is typed by it; derived from the soundness of both passes of the sharing check (C15b + unreadOwn_sound) through instruction generation and the performer, each hypothesis of the graph-stage theorem shown necessary by a closed witness; FALSE before repair D35 (Defect.pinned). Not covered by the theorem: numeric values observed by consumers (C05/C06/C07 checks)",
         design="§6 C15",
     ),
     "C19": dict(
         text="Lean 4 theorems: every single graph transformation leaves all other subgraphs literally unchanged (other_subgraphs_untouched); the WHOLE graph-rewriting stage is local (performer_local): for every model, instruction list and subgraph j whose operators point into the opcode table, running the performer on the model extracted around subgraph j with the instructions of j succeeds whenever the full run does and yields the same tensors, operators (opcodes resolved through the table), inputs, outputs and signatures; the hypothesis is shown necessary by a kernel-checked counterexample (hcodes_needed). Executed: subgraph i of quantize(multi-subgraph model) vs subgraph 0 of quantize(extracted model) with restricted statistics, structurally and by constant hashes.",
-        note="locality of materialisation (parameters of subgraph j computed from j's tensors and statistics only) and of instruction generation is executed, not proved; buffer contents shared across subgraphs are C15's subject",
+        note="END TO END (QProps/C19c, quantize_local_full): whenever quantizePure succeeds on the multi-subgraph model it succeeds on the model extracted around subgraph j and subgraph j of the result equals the stand-alone result (tensors, dtypes, parameters, operators, wiring, I/O, signatures) up to an injective renaming of parameter ids with ==-equal parameter objects; locality of materialisation incl. both passes of the sharing check (generate_local_full) and of instruction generation (genInsts_local) are proved; the converse is false (shared_constant_rejected, the C15 caveat); buffer contents are compared by execution",
         design="§6 C19",
     ),
 })
